@@ -384,17 +384,18 @@ var nameOps = []nameOp{
 	{"ToUnicode(A)", func() string { return fmt.Sprint(names.ToUnicode("A", false)) }},
 	{"ToUnicode(a62,dingbats)", func() string { return fmt.Sprint(names.ToUnicode("a62", true)) }},
 	{"FromUnicode(A)", func() string { return names.FromUnicode('A') }},
-	{"ToUnicode(f_f_i.alt)", func() string { return fmt.Sprint(names.ToUnicode("f_f_i.alt", false)) }},
 	{"ToUnicode(dalethatafpatah)", func() string { return fmt.Sprint(names.ToUnicode("dalethatafpatah", false)) }},
+	{"ToUnicode(f_f_i.alt)", func() string { return fmt.Sprint(names.ToUnicode("f_f_i.alt", false)) }},
 }
 
-func scenarios() [][][]int {
+// scenarios: nOps = how many of nameOps are used (quick 4, thorough all).
+func scenarios(nOps int) [][][]int {
 	var lists [][]int
-	for a := range nameOps {
+	for a := 0; a < nOps; a++ {
 		lists = append(lists, []int{a})
 	}
-	for a := range nameOps {
-		for b := range nameOps {
+	for a := 0; a < nOps; a++ {
+		for b := 0; b < nOps; b++ {
 			lists = append(lists, []int{a, b})
 		}
 	}
@@ -404,9 +405,9 @@ func scenarios() [][][]int {
 			out = append(out, [][]int{x, y})
 		}
 	}
-	for a := range nameOps {
-		for b := range nameOps {
-			for d := range nameOps {
+	for a := 0; a < nOps; a++ {
+		for b := 0; b < nOps; b++ {
+			for d := 0; d < nOps; d++ {
 				out = append(out, [][]int{{a}, {b}, {d}})
 			}
 		}
@@ -416,11 +417,11 @@ func scenarios() [][][]int {
 
 var seqResults map[int]string
 
-func lazyInitFamily(preempt int, budget time.Duration) mc.Family {
-	sc := scenarios()
+func lazyInitFamily(preempt, nOps int, budget time.Duration) mc.Family {
+	sc := scenarios(nOps)
 	return mc.Family{
 		Name: "lazy-init-schedules", Items: len(sc), MaxDev: preempt, Budget: budget,
-		Rule: fmt.Sprintf("%d scenarios: 2 goroutines with 1..2 calls each and 3 goroutines with 1 call each, calls from {ToUnicode(A), ToUnicode(a62, dingbats), FromUnicode(A), ToUnicode(f_f_i.alt), ToUnicode(dalethatafpatah)}, tables reset to uninitialised before every execution; every interleaving at lock operations with <= %d preemptions (cooperative scheduler over the sync shim); vector-clock happens-before detection over all hooked field and map accesses (sites: build/gen-c18-sites.json); non-trivial = at least one context switch between goroutines happened", len(sc), preempt),
+		Rule: fmt.Sprintf("%d scenarios: 2 goroutines with 1..2 calls each and 3 goroutines with 1 call each, calls from the first "+fmt.Sprint(nOps)+" of {ToUnicode(A), ToUnicode(a62, dingbats), FromUnicode(A), ToUnicode(dalethatafpatah), ToUnicode(f_f_i.alt)}, tables reset to uninitialised before every execution; every interleaving at lock operations with <= %d preemptions (cooperative scheduler over the sync shim); vector-clock happens-before detection over all hooked field and map accesses (sites: build/gen-c18-sites.json); non-trivial = at least one context switch between goroutines happened", len(sc), preempt),
 		Body: func(c *mc.Ctx, item int) mc.Verdict {
 			if seqResults == nil {
 				seqResults = map[int]string{}
@@ -543,12 +544,12 @@ func main() {
 		TrustedBase: []string{"tools/instrument (sync shim, access hooks, VerifGlobals)", "go build -overlay", "reflection-based state image (cmd/c18/deep.go)"},
 		Families: func(tier string) []mc.Family {
 			budget := 50 * time.Second
-			length, preempt := 2, 2
+			length, preempt, nOps := 2, 2, 4
 			if tier == "thorough" {
 				budget = 10 * time.Minute
-				length, preempt = 3, 3
+				length, preempt, nOps = 3, 3, len(nameOps)
 			}
-			return []mc.Family{historiesFamily(length, budget), lazyInitFamily(preempt, budget), raceFamily()}
+			return []mc.Family{historiesFamily(length, budget), lazyInitFamily(preempt, nOps, budget), raceFamily()}
 		},
 	})
 }
